@@ -67,6 +67,8 @@ pub enum Tamper {
     /// a holder of the namespace secret forges new content under another author's id: valid
     /// namespace signature, author slot filled with a copy of it (or with zeros)
     ForgeAuthor { zeros: bool },
+    /// a perfectly valid entry of ANOTHER document that exists in the same store
+    OtherDocument,
 }
 
 impl Tamper {
@@ -86,6 +88,7 @@ impl Tamper {
             Tamper::ShortId { .. } => "short-id".into(),
             Tamper::CopySig { .. } => "copy-sig".into(),
             Tamper::ForgeAuthor { .. } => "forge-author".into(),
+            Tamper::OtherDocument => "other-document".into(),
         }
     }
     fn valid(&self) -> bool {
@@ -187,6 +190,11 @@ pub fn forge(victim: &Ent, donor: &Ent, t: &Tamper) -> Option<SignedEntry> {
                 m.signature.namespace = d.signature.namespace;
             }
         }
+        Tamper::OtherDocument => {
+            let mut e = victim.clone();
+            e.d = 1;
+            return Some(e.signed());
+        }
         Tamper::ForeignNamespace => {
             return Some(SignedEntry::from_parts(&w.foreign_doc, &w.authors[victim.a as usize], &victim.k, victim.record()));
         }
@@ -275,6 +283,7 @@ impl Scenario for Forge {
             14 => Tamper::LenZeroHash,
             15 => Tamper::HashEmptyLen,
             16 | 17 => Tamper::Future { delta: *rng.pick(&[-1i64, 0, 1, -1000, 1000, -1, 0]) },
+            18 if rng.chance(1, 3) => Tamper::OtherDocument,
             18 => if rng.chance(1, 2) { Tamper::CopySig { namespace_over_author: rng.chance(1, 2) } } else { Tamper::ForgeAuthor { zeros: rng.chance(1, 3) } },
             _ => if rng.chance(1, 3) { Tamper::ShortId { len: rng.below(64) as u8 } } else { Tamper::Future { delta: *rng.pick(&[-1i64, 0, 1]) } },
         };
@@ -377,7 +386,7 @@ async fn run(plan: &ForgePlan, cx: &mut Cx) -> Res {
         cx.fault(match &plan.tamper {
             Tamper::Flip { .. } => "corrupt_bit_flip",
             Tamper::SwapSigs | Tamper::TransplantSig { .. } | Tamper::ForeignAuthorSig | Tamper::ForeignNamespaceSig | Tamper::CopySig { .. } | Tamper::ForgeAuthor { .. } => "corrupt_signature",
-            Tamper::ForeignNamespace | Tamper::NonCurve { .. } | Tamper::ShortId { .. } => "corrupt_identifier",
+            Tamper::ForeignNamespace | Tamper::NonCurve { .. } | Tamper::ShortId { .. } | Tamper::OtherDocument => "corrupt_identifier",
             Tamper::LenZeroHash | Tamper::HashEmptyLen => "corrupt_empty_mismatch",
             Tamper::Future { .. } => "clock_skew_future_bound",
             Tamper::None => "none",
@@ -397,6 +406,8 @@ async fn run(plan: &ForgePlan, cx: &mut Cx) -> Res {
     for path in ["direct", "in-message"] {
         let mut sut = Sut::new(plan.backend)?;
         ensure_doc(sut.store(), 0)?;
+        // a second document lives in the same store; nothing is ever written to it legitimately
+        ensure_doc(sut.store(), 1)?;
         let node = Node::start(sut.store.take().unwrap());
         node.set_clock(now);
         let mut rxs = Vec::new();
@@ -523,6 +534,10 @@ async fn run(plan: &ForgePlan, cx: &mut Cx) -> Res {
             return Err(Violation::new("bound/rejected-at-bound", format!("[{path}] an entry exactly within the future bound (ts={} now={now}) was not stored", plan.victim.ts)));
         }
         compare(if valid { "state" } else { "reject-side-effect" }, &format!("[{kind}/{path}] replica after delivery"), &d, &model)?;
+        let other = dump(&mut store, 1).map_err(harness)?;
+        if !other.raw.is_empty() {
+            return Err(Violation::new(format!("accepted-forged/{kind}"), format!("[{path}] an entry delivered to one document ended up in another document of the same store: {:?}", other.raw[0].entry())));
+        }
         // indexes agree with the entries held
         let by_key: Vec<SignedEntry> = store
             .get_many(ns, Query::all().include_empty().sort_by(SortBy::KeyAuthor, SortDirection::Asc))
